@@ -513,6 +513,20 @@ def enumerate_all(R, step, stepobj, keep, every, overwrite, torn, ctx):
       if not handle_crash(R, res, step, stepobj, marker, keep, every,
                           overwrite, torn, ctx):
         continue
+      # a crashed save (its temporary may still be there) does not open the
+      # door to stale steps: the legacy back-end still rejects a step older
+      # than the latest, and changes nothing
+      if m.backend == 'legacy' and m.all_steps():
+        stale = min(m.all_steps()) - 1.0
+        if stale != step and R.expected_error(stale, False):
+          sobj = stale if m.float_steps else int(stale)
+          res_s, _ = R.save(stale, sobj, keep, every, False)
+          require(res_s['status'] == 'exc', lambda: f'after a crash at event '
+                  f'{k} of save(step={stepobj}) the legacy back-end accepted '
+                  f'step {sobj}, older than the latest '
+                  f'{max(m.all_steps())}: {res_s.get("status")}')
+          check_observation(m, R.observe(), f'after the rejected stale save '
+                            f'following a crash at event {k}')
       # I4: retry of the interrupted step
       committed_now = step in m.committed and m.committed[step] == marker
       exp_err = R.expected_error(step, overwrite)
